@@ -518,8 +518,14 @@ fn check_pair(t: CTy, sec_name: &str, sec: &Section, u: Use, ext: &HashMap<(&'st
 /// whose parameter / return types nest const-sized arrays: for every (R, C) the program must accept
 /// exactly the values of the substituted type and encode / decode them like the substituted program.
 fn literal_api_cases(cnt: &Cnt, coll: &Collector) {
-    let templates: [(&str, &str, &str); 3] = [
+    let templates: [(&str, &str, &str); 4] = [
         ("[[u8;C];R]", "pub fn main(a: [[u8; C]; R], y: u8) -> [[u8; C]; R] {\n  a\n}\n", "nested"),
+        // the same type with its sizes written as constant expressions (max(C, 0) = C, min(R, 3) = R for R <= 3)
+        (
+            "[[u8;const{max(C,0)}];const{min(R,3)}]",
+            "pub fn main(a: [[u8; const { max(C, 0usize) }]; const { min(R, 3usize) }], y: u8) -> [[u8; const { max(C, 0usize) }]; const { min(R, 3usize) }] {\n  a\n}\n",
+            "nested",
+        ),
         ("[(u8,[bool;C]);R]", "pub fn main(a: [(u8, [bool; C]); R], y: u8) -> [(u8, [bool; C]); R] {\n  a\n}\n", "tuple"),
         ("[S;R] with S{v:[u8;C]}", "struct S { v: [u8; C], w: bool }\npub fn main(a: [S; R], y: u8) -> [S; R] {\n  a\n}\n", "struct"),
     ];
